@@ -26,7 +26,7 @@ RULE = ('export/unexport histories (2-15 steps) over 8 paths including /, /a, /a
 STATE_MEASURE = 'distinct (exported path set, query kind, queried path) at processing instants'
 PROBES = ['sibling-prefix-both-exported', 'introspect-intermediate-path', 'introspect-fails',
           'gmo-with-descendants', 'gmo-root', 'query-in-flight-across-export',
-          'query-in-flight-across-unexport', 'call-to-unexported', 'unexport-then-reexport',
+          'query-in-flight-across-unexport', 'call-to-unexported', 'unexport-then-reexport', 'same-instance-reexported',
           'gmo-sibling-prefix-case']
 COMPONENTS = {
     'real': ['txdbus.objects.DBusObjectHandler (exportObject, unexportObject, getManagedObjects, '
@@ -87,6 +87,7 @@ def scenario(ctx):
             classes.append((cs, objgen.build_class(cs, hook, txi)))
     rig.call(build)
 
+    retired = {}    # path -> record of an instance that was unexported (may be exported again)
     E = {}          # path -> dict(obj, cs, props {(iface, prop): ref value})
     ever = set()
     queries = []    # dicts
@@ -113,6 +114,17 @@ def scenario(ctx):
         if not free:
             return op_unexport()
         p = free[ds.choose(len(free))]
+        if p in retired and ds.flag(0.5):
+            # export the very instance that was unexported earlier
+            rec = retired.pop(p)
+            new_signals()
+            sim.log('op', 're-export', p)
+            sim.probe('same-instance-reexported')
+            rig.call(cl.exportObject, rec['obj'])
+            E[p] = rec
+            epoch[0] += 1
+            check_announce(new_signals(), 'InterfacesAdded', p, rec['cs'])
+            return
         cs, klass = classes[ds.choose(len(classes))]
         vals = {}
 
@@ -147,6 +159,7 @@ def scenario(ctx):
         new_signals()
         sim.log('op', 'unexport', p)
         rig.call(cl.unexportObject, p)
+        retired[p] = E[p]
         del E[p]
         epoch[0] += 1
         sigs = new_signals()
